@@ -10,7 +10,7 @@ from vlib.runner import Violation, sut
 
 ID = "C07"
 RULE = (
-    "case = backend x pulsetime (0, 1 ms, 0.5 s, 1 s, 5 s, 60 s, or exactly one of the stream's gaps) x stream of 1..25 heartbeats built constructively: "
+    "case = backend x pulsetime (0, 1 ms, 0.5 s, 1 s, 5 s, 60 s, or exactly one of the stream's gaps; a third of the time moved by a fraction of a microsecond or by 1/3 ms, i.e. a float that is no whole number of microseconds) x stream of 1..25 heartbeats built constructively: "
     "ts_i = ts_{i-1} + d (d >= 1 ms), end_i = max(end_{i-1}, ts_i) + extra with extra = 0 about half the time (zero-length heartbeats, heartbeats starting exactly "
     "at the previous end, end instants that tie with the previous event), data from {A,B,C} with runs and alternation; 1..2 other buckets on the same store "
     "pre-populated with events whose end instants or start instants coincide with points of the stream. Oracle: the standard loop (get(limit=1) -> heartbeat_merge -> "
@@ -65,7 +65,9 @@ def strategy(draw, tier="quick"):
             else:  # or starting at exactly the same instant as a heartbeat of the stream
                 evs.append({"ts_ms": h["ts_ms"], "dur_ms": d, "data": "X"})
         others.append(evs)
-    return {"backend": draw(st.sampled_from(stores.BACKENDS)), "p_ms": p_ms, "stream": hbs, "others": others}
+    # "all pulsetimes": also floats that are not a whole number of microseconds (the store loop and heartbeat_reduce must still agree)
+    nudge = draw(st.sampled_from([0, 0, 0, 0, -1e-7, 1e-7, -4e-7, 4e-7, 1 / 3000, 1e-4 / 3]))
+    return {"backend": draw(st.sampled_from(stores.BACKENDS)), "p_ms": p_ms, "p_nudge": nudge, "stream": hbs, "others": others}
 
 
 def known_key(case, v):
@@ -85,7 +87,7 @@ def run_case(case):
     from aw_transform import heartbeat_merge, heartbeat_reduce
 
     be = case["backend"]
-    p = case["p_ms"] / 1000
+    p = max(0.0, case["p_ms"] / 1000 + case.get("p_nudge", 0))
     stream = case["stream"]
     with sut("heartbeat_reduce (reference)"):
         expected = [_t(e) for e in heartbeat_reduce([_mk(Event, h) for h in stream], p)]
